@@ -6,6 +6,24 @@ use pkgsrc::plist::{PlistEntry, PlistOption};
 use pkgsrc::summary::Summary;
 use std::os::unix::ffi::OsStrExt;
 
+extern "C" {
+    #[link_name = "mkfifo"]
+    fn c_mkfifo(path: *const std::os::raw::c_char, mode: u32) -> i32;
+}
+
+/// A named pipe at `path` (mkfifo(3) of the C library the binary is linked against anyway;
+/// no external command, so the pipe exists wherever the file system supports one).
+pub fn mkfifo(path: &std::path::Path) -> std::io::Result<()> {
+    let c = std::ffi::CString::new(path.as_os_str().as_bytes())
+        .map_err(|e| std::io::Error::new(std::io::ErrorKind::InvalidInput, e))?;
+    // SAFETY: `c` is a valid NUL-terminated string that outlives the call.
+    if unsafe { c_mkfifo(c.as_ptr(), 0o644) } == 0 {
+        Ok(())
+    } else {
+        Err(std::io::Error::last_os_error())
+    }
+}
+
 /// The complete observable state of a `Summary`: the 23 getters, as a model
 /// entry (variable index -> value).
 pub fn summary_state(s: &Summary) -> MEntry {
